@@ -23,6 +23,11 @@ def obligation_id(v):
     return "%s/%s" % (v["region"], msg_kind(v["msg"]))
 
 
+def _prop_ops(prop, region):
+    import cex
+    return [op for op in cex.OPS.get(region, []) if op in cex.PROP_OPS.get(prop, [])]
+
+
 def match_known(prop, v, known):
     for f in known.get("findings", []):
         if f.get("status") != "known" or f.get("property") != prop:
@@ -42,6 +47,22 @@ def finish(prop, tier, seed, results, wall, known, no_evidence=False):
             k = match_known(prop, v, known)
             if k:
                 known_hits.append((k, v))
+            elif v.get("changed_vs_contract") and not v.get("contract_only") and not v.get("site_in_code") and _prop_ops(prop, v["region"]):
+                # The function differs from the text its proof hints were written for, and the failed obligation lies in
+                # (or depends on) those hints. Where the replay driver can exercise this function for this property, a
+                # failed proof alone is not reported: it must be confirmed by a concrete failing input on the real code;
+                # otherwise the run is undecided (exit 2). Failed preconditions at call sites in the code itself, functions
+                # without a replay operation, and unchanged functions are reported as before.
+                import cex
+                try:
+                    found = cex.search(prop, v["region"], seed, tier)
+                except Exception as e:
+                    found = None
+                if found and found.get("input") is not None:
+                    violations.append(v)
+                else:
+                    v["why"] = "changed function, hint-dependent obligation failed, and %s" % ((found or {}).get("note") or "no failing input was found")
+                    undecided.append(v)
             elif v.get("contract_only"):
                 # the proof hints of this (changed) function had to be dropped: a failed proof is then not a
                 # decision. It becomes a violation only if a concrete failing input is confirmed on the real code.
